@@ -793,7 +793,11 @@ def _evaluate(tagss, root: str) -> list[dict]:
         if mock["initBodyEmpty"]:
             fail("mock-client-empty-init", mk["error"], "mock_client.py compiles")
         elif len(mnames) > len(set(mnames)):
-            fail("mock-client-duplicate-argument", mk["error"], "mock_client.py compiles")
+            # F23 repaired: the keywords of MockAPIClient.__init__ are APIClient's property names.  A duplicate that APIClient has too (two
+            # keys with one module name, non-ASCII tags: class `duplicate-property-name`) is that defect seen on the mock; a duplicate among
+            # the mock's keywords alone (spellings of one tag filed as two groups) would be F23 again
+            fail("mock-client-duplicate-argument" if len(names) == len(set(names)) else "mock-client-duplicate-property-name",
+                 mk["error"], "mock_client.py compiles")
         elif "self" in mnames:
             fail("mock-client-self-argument", mk["error"], "mock_client.py compiles")
         else:
